@@ -30,8 +30,8 @@ ASSUMPTIONS = [
 ]
 EXHAUSTIVE = {"quick": False, "thorough": True}
 PLAN = {"quick": dict(depth2=5000, depth3=0), "thorough": dict(depth2=None, depth3=60000)}
-FLOORS = {"quick": {"annotations_built": 5000, "passthrough_probes": 120, "rebuild_fingerprints": 5000, "leaf_kinds": 47, "constructors": 26, "generic_class_probes": 60, "bare_container_probes": 150},
-          "thorough": {"annotations_built": 60000, "passthrough_probes": 120, "rebuild_fingerprints": 60000, "leaf_kinds": 47, "constructors": 26, "generic_class_probes": 80, "bare_container_probes": 200}}
+FLOORS = {"quick": {"annotations_built": 5000, "passthrough_probes": 120, "rebuild_fingerprints": 5000, "leaf_kinds": 47, "constructors": 30, "generic_class_probes": 60, "bare_container_probes": 150, "iterator_probes": 300},
+          "thorough": {"annotations_built": 60000, "passthrough_probes": 120, "rebuild_fingerprints": 60000, "leaf_kinds": 47, "constructors": 30, "generic_class_probes": 80, "bare_container_probes": 200, "iterator_probes": 3000}}
 
 MOD = "vtot_ns"
 SRC = '''
@@ -83,6 +83,9 @@ CTORS = {
     "abc.Mapping": "collections.abc.Mapping[str, {}]", "typing.Dict": "typing.Dict[str, {}]", "typing.Tuple": "typing.Tuple[{}, ...]",
     "newtype": None, "alias": None, "Final": "typing.Final[{}]", "ClassVar": "typing.ClassVar[{}]",
     "dcfield": None, "ntfield": None, "tdfield": None, "two_variadic": None, "two_fixed": None, "list_then_bare": None, "Box": "Box[{}]",
+    # one-shot / lazily consumed containers the dispatch tables name explicitly
+    "typing.Iterator": "typing.Iterator[{}]", "abc.Iterator": "collections.abc.Iterator[{}]", "typing.Iterable": "typing.Iterable[{}]",
+    "abc.Iterable": "collections.abc.Iterable[{}]",
     "two_parents": "tuple[list[{0}], typing.Sequence[{0}]]", "dict_two_parents": "dict[str, tuple[list[{0}], collections.deque[{0}]]]",
 }
 PROBES = [1, "1", "[1]", None, {"a": 1}, [1, 2], "x", b"1", 2.5, {"x": 3}, ["a"], True]
@@ -215,6 +218,50 @@ def passthrough_probe(sh, ctor, leaf, src, T):
             sh.violation("not-passthrough", annotation=src, direction=direction, got=short(r, 200))
 
 
+ITER_CTORS = ("typing.Iterator", "abc.Iterator", "typing.Iterable", "abc.Iterable")
+
+
+def iterator_probe(sh, outer, inner_src, src, T, ns):
+    """Working routines for Iterator[X] / Iterable[X]: what the routine yields is what the routine for list[X] returns (same
+    conversions, same rejections - judged after draining the result), and an iterator of values marshals like the list of them."""
+    if outer not in ITER_CTORS or inner_src is None:
+        return
+    try:
+        L = eval(f"list[{inner_src}]", ns.__dict__)
+        with quiet():
+            lu, lm = typelib.unmarshaller(L), typelib.marshaller(L)
+    except Exception:  # noqa: BLE001
+        return
+    sh.count("iterator_probes")
+
+    def drained(fn, x):
+        try:
+            with quiet():
+                r = fn(x)
+                return ("ok", canon([*r], strict=True) if not isinstance(r, (str, bytes, dict)) and hasattr(r, "__iter__") else canon(r, strict=True))
+        except (RecursionError, MemoryError):
+            return ("skip", None)
+        except Exception as e:  # noqa: BLE001
+            return ("raised", type(e).__name__)
+
+    for x in PROBES + [["1", "2"], (1, 2), [], [[1]], [None], [{"x": 3}], ["a", "b"]]:
+        a, b = drained(lambda v: typelib.unmarshal(T, v), x), drained(lu, x)
+        if "skip" in (a[0], b[0]):
+            continue
+        sh.count("iterator_outcomes_compared")
+        if a != b:
+            sh.violation("iterator-routine-differs-from-list", annotation=src, direction="unmarshal", input=short(x, 80), list_routine=short(b, 160), got=short(a, 160))
+            return
+    for v in ([1, 2], ["a"], [], [[1]], [None]):
+        a, b = drained(lambda vv: typelib.marshal(iter(vv), t=T), v), drained(lm, v)
+        if "skip" in (a[0], b[0]):
+            continue
+        sh.count("iterator_outcomes_compared")
+        if a != b:
+            sh.violation("iterator-routine-differs-from-list", annotation=src, direction="marshal", input=short(v, 80), list_routine=short(b, 160), got=short(a, 160))
+            return
+
+
 def generic_probe(sh, ctor, leaf, src, T, ns):
     """User generic classes, bare and parameterised, must yield WORKING routines: the field of Box / Box[int] is carried through
     (pass-through for the free type-variable, converted for Box[int]) in both directions at every constructor position."""
@@ -292,7 +339,7 @@ def warm():
             typelib.marshaller(w)
 
 
-def check(sh, src, T, steps, leaf=None, ctor=None):
+def check(sh, src, T, steps, leaf=None, ctor=None, outer=None, inner_src=None):
     sh.eval(src)
     warm()
     steps.n = 0
@@ -316,6 +363,7 @@ def check(sh, src, T, steps, leaf=None, ctor=None):
     sh.count("annotations_built")
     passthrough_probe(sh, ctor, leaf, src, T)
     generic_probe(sh, ctor, leaf, src, T, namespace())
+    iterator_probe(sh, outer, inner_src, src, T, namespace())
     fp1 = fingerprint(built["unmarshaller"], built["marshaller"])
     served_permutation = permutation_served(T)
     try:
@@ -384,8 +432,10 @@ def run_shard(sh):
         depth, path, leaf = mine[i]
         sh.see("leaf_kinds", leaf)
         src, obj = leaf, eval(leaf, ns.__dict__)
+        inner_src = None
         for c in reversed(path):
             sh.see("constructors", c)
+            inner_src = src
             r = apply(c, src, ns)
             if r is None:
                 sh.count("rejected_by_typing")
@@ -394,7 +444,7 @@ def run_shard(sh):
         if i % 16 == 0:
             clear_typelib_caches(also_typing=False)
         check(sh, src if not path else f"{'>'.join(path)}({leaf}) = {src}", obj, steps, leaf=leaf,
-              ctor=(path[0] if len(path) == 1 else ("<root>" if not path else "<deep>")))
+              ctor=(path[0] if len(path) == 1 else ("<root>" if not path else "<deep>")), outer=(path[0] if path else None), inner_src=inner_src)
         if i % 400 == 0:
             sh.sample({"annotation": src})
 
